@@ -72,6 +72,20 @@ func (u *Unit) tableCall(st *State, instr ssa.Instruction, common *ssa.CallCommo
 
 // initGhost declares the ghost variables of the contract with their initial values.
 func (u *Unit) initGhost(st *State) {
+	// ghost globals: shared by all functions, only changed by ghost updates
+	for _, gv := range u.eng.contracts.GhostGlobals {
+		sort := ghostSort(gv.Sort)
+		if sort == "" {
+			panic(evalErr{"ghostglobal " + gv.Name + ": unknown sort " + gv.Sort})
+		}
+		n := "gg_" + sanitize(gv.Name) + "!0"
+		u.pre.declConst(n, sort)
+		t := mk(n, sort)
+		if gv.Sort == "int" {
+			t.T = types.Typ[types.Int]
+		}
+		st.ghost[gv.Name] = t
+	}
 	if u.contract == nil {
 		return
 	}
@@ -213,4 +227,266 @@ func (u *Unit) dynCall(st *State, instr ssa.Instruction, common *ssa.CallCommon,
 	}
 	u.note(fmt.Sprintf("%s: call through a %s value: preconditions of all %d possible targets required, effects over-approximated", u.key, types.TypeString(common.Value.Type(), u.eng.qual), len(targets)))
 	return rs, true
+}
+
+// ---------- closures in the context of their parent ----------
+
+// closureCtx describes how a closure is created in its parent: which parent cells its free variables
+// are, and which of the captured cells hold closures that are assigned exactly once.
+type closureCtx struct {
+	mk     *ssa.MakeClosure
+	cellOf map[ssa.Value]Term             // parent cell (Alloc) -> reference term in this unit
+	heldFn map[ssa.Value]*ssa.MakeClosure // parent cell -> the closure stored in it (single assignment)
+	byName map[string]ssa.Value           // parent variable name -> cell
+}
+
+func (u *Unit) initClosureCtx(st *State) {
+	fn := u.fn
+	parent := fn.Parent()
+	if parent == nil {
+		return
+	}
+	cc := &closureCtx{cellOf: map[ssa.Value]Term{}, heldFn: map[ssa.Value]*ssa.MakeClosure{}, byName: map[string]ssa.Value{}}
+	for _, b := range parent.Blocks {
+		for _, ins := range b.Instrs {
+			if mc, ok := ins.(*ssa.MakeClosure); ok && mc.Fn == ssa.Value(fn) {
+				if cc.mk != nil {
+					return // created at several sites: no context
+				}
+				cc.mk = mc
+			}
+		}
+	}
+	if cc.mk == nil {
+		return
+	}
+	for i, fv := range fn.FreeVars {
+		cc.cellOf[cc.mk.Bindings[i]] = st.vals[fv]
+	}
+	// every cell captured by any closure of the parent, by source name; cells that hold a closure
+	captured := map[ssa.Value]bool{}
+	for _, b := range parent.Blocks {
+		for _, ins := range b.Instrs {
+			if mc, ok := ins.(*ssa.MakeClosure); ok {
+				for _, bd := range mc.Bindings {
+					captured[bd] = true
+				}
+			}
+		}
+	}
+	for cell := range captured {
+		al, ok := cell.(*ssa.Alloc)
+		if !ok {
+			continue
+		}
+		if al.Comment != "" {
+			cc.byName[al.Comment] = al
+		}
+		var stores []*ssa.Store
+		if refs := al.Referrers(); refs != nil {
+			for _, r := range *refs {
+				if s, ok := r.(*ssa.Store); ok && s.Addr == ssa.Value(al) {
+					stores = append(stores, s)
+				}
+			}
+		}
+		if len(stores) == 1 {
+			v := stores[0].Val
+			if ct, ok := v.(*ssa.ChangeType); ok {
+				v = ct.X
+			}
+			if mc2, ok := v.(*ssa.MakeClosure); ok {
+				cc.heldFn[al] = mc2
+			}
+		}
+	}
+	// cells captured by sibling closures but not by this one: stable, distinct references
+	for cell := range captured {
+		if _, ok := cc.cellOf[cell]; ok {
+			continue
+		}
+		n := "pcell_" + sanitize(cell.Name())
+		u.pre.declConst(n, SInt)
+		t := mkT(n, SInt, cell.Type())
+		u.pre.axiom(fmt.Sprintf("(and (< 0 %s) (<= (own %s) alloc!0) (= (rkind %s) 0))", n, n, n))
+		for other, ot := range cc.cellOf {
+			if types.Identical(other.Type(), cell.Type()) {
+				st.assume(not(eq(t, ot)))
+			}
+		}
+		cc.cellOf[cell] = t
+	}
+	u.closure = cc
+}
+
+// cellTerm returns the reference of a parent cell as seen from this closure unit.
+func (u *Unit) parentCellLoc(cell ssa.Value) (Loc, bool) {
+	if u.closure == nil {
+		return Loc{}, false
+	}
+	t, ok := u.closure.cellOf[cell]
+	if !ok {
+		return Loc{}, false
+	}
+	pt, ok := cell.Type().(*types.Pointer)
+	if !ok {
+		return Loc{}, false
+	}
+	if _, isS := isStruct(pt.Elem()); isS {
+		return Loc{}, false
+	}
+	comp, cs := u.cellComp(pt.Elem())
+	return Loc{Kind: 1, Comp: comp, CSort: cs, Ref: t, T: pt.Elem()}, true
+}
+
+// resolveCellCall: a call of the value loaded from a captured cell that holds a single-assignment closure.
+func (u *Unit) resolveCellCall(common *ssa.CallCommon) (*ssa.MakeClosure, bool) {
+	if u.closure == nil {
+		return nil, false
+	}
+	ld, ok := common.Value.(*ssa.UnOp)
+	if !ok {
+		return nil, false
+	}
+	fv, ok := ld.X.(*ssa.FreeVar)
+	if !ok {
+		return nil, false
+	}
+	for i, f := range u.fn.FreeVars {
+		if f == fv {
+			mc2, ok := u.closure.heldFn[u.closure.mk.Bindings[i]]
+			return mc2, ok
+		}
+	}
+	return nil, false
+}
+
+func ghostSort(s string) string {
+	return map[string]string{"int": SInt, "bool": SBool, "string": SStr, "intarray": arraySort(SInt, SInt),
+		"strarray": arraySort(SInt, SStr), "boolarray": arraySort(SInt, SBool),
+		"strintmap": arraySort(SStr, SInt), "strrefmap": arraySort(SStr, SInt), "strboolmap": arraySort(SStr, SBool)}[s]
+}
+
+// ---------- private cells ----------
+// The cell of a local variable whose address never leaves the function and its own closures cannot be
+// reached, hence not written, by any other code. Such cells keep their content across calls whose effect is
+// otherwise unknown — except the cells that a closure handed to the callee itself assigns.
+
+func cellIsPrivate(al *ssa.Alloc) bool {
+	var check func(v ssa.Value, depth int) bool
+	check = func(v ssa.Value, depth int) bool {
+		refs := v.Referrers()
+		if refs == nil || depth > 3 {
+			return refs != nil
+		}
+		for _, r := range *refs {
+			switch x := r.(type) {
+			case *ssa.DebugRef:
+			case *ssa.UnOp:
+			case *ssa.Store:
+				if x.Addr != v {
+					return false // the address itself is stored somewhere
+				}
+			case *ssa.MakeClosure:
+				fn := x.Fn.(*ssa.Function)
+				for i, b := range x.Bindings {
+					if b == v {
+						if !check(fn.FreeVars[i], depth+1) {
+							return false
+						}
+					}
+				}
+			default:
+				return false
+			}
+		}
+		return true
+	}
+	return check(al, 0)
+}
+
+// closureStores: the captured cells (of the closure's parent) that a closure, or a closure nested in it, assigns.
+func closureStores(fn *ssa.Function, mcBindings []ssa.Value, out map[ssa.Value]bool) {
+	for i, fv := range fn.FreeVars {
+		refs := fv.Referrers()
+		if refs == nil {
+			continue
+		}
+		for _, r := range *refs {
+			switch x := r.(type) {
+			case *ssa.Store:
+				if x.Addr == ssa.Value(fv) {
+					out[mcBindings[i]] = true
+				}
+			case *ssa.MakeClosure:
+				inner := map[ssa.Value]bool{}
+				closureStores(x.Fn.(*ssa.Function), x.Bindings, inner)
+				if inner[fv] {
+					out[mcBindings[i]] = true
+				}
+			}
+		}
+	}
+}
+
+type savedCell struct {
+	loc Loc
+	val Term
+}
+
+// savePrivateCells records the content of the private cells visible in this unit before a whole-heap havoc.
+func (u *Unit) savePrivateCells(st *State, passed *ssa.MakeClosure) []savedCell {
+	written := map[ssa.Value]bool{}
+	if passed != nil {
+		closureStores(passed.Fn.(*ssa.Function), passed.Bindings, written)
+	}
+	var out []savedCell
+	add := func(cell ssa.Value, l Loc) {
+		out = append(out, savedCell{l, u.define(st, "kept", u.loadLoc(st, l))})
+	}
+	// own local cells
+	for _, b := range u.fn.Blocks {
+		for _, ins := range b.Instrs {
+			al, ok := ins.(*ssa.Alloc)
+			if !ok || written[al] {
+				continue
+			}
+			l, has := st.locs[al]
+			if !has || !cellIsPrivate(al) {
+				continue
+			}
+			add(al, l)
+		}
+	}
+	// captured cells of the parent (this unit is a closure)
+	if u.closure != nil {
+		for i, fv := range u.fn.FreeVars {
+			cell, ok := u.closure.mk.Bindings[i].(*ssa.Alloc)
+			if !ok || !cellIsPrivate(cell) {
+				continue
+			}
+			if passed != nil {
+				// the closure handed on may assign cells of this unit's parent through its own bindings
+				w := map[ssa.Value]bool{}
+				closureStores(passed.Fn.(*ssa.Function), passed.Bindings, w)
+				if w[fv] {
+					continue
+				}
+			}
+			if l, ok := st.locs[fv]; ok {
+				add(cell, l)
+			}
+		}
+	}
+	return out
+}
+
+func (u *Unit) restorePrivateCells(st *State, saved []savedCell) {
+	for _, sc := range saved {
+		cur := u.loadLoc(st, sc.loc)
+		st.assume(eq(cur, sc.val))
+	}
+	if len(saved) > 0 {
+		u.note("private cells (local variables whose address stays inside the function and its closures) keep their content across calls with unknown effect")
+	}
 }
